@@ -468,6 +468,10 @@ def run(ctx):
         loop_mode = "widen"
         max_depth = 4
 
+        def inline(self, fn, args, interp, path):
+            # one constructor / method of the composition written in terms of another
+            return (fn.get("impl_self_ty") or "").startswith("operators::UnaryOp<") and fn.get("name") not in ("apply",)
+
         def inline_closure(self, closure_path, args, interp, path):
             return False
     STORE = ".funcs_to_be_composed(self_)"
